@@ -13,7 +13,16 @@ import (
 
 func parseIgnoreFile(rootPath string) *ignorefiles.Ruleset {
 	// Look for .terraformignore at our root path/src
-	file, err := os.Open(filepath.Join(rootPath, ".terraformignore"))
+	path := filepath.Join(rootPath, ".terraformignore")
+
+	// Only a regular file (or a link to one) is read: opening anything else,
+	// a fifo for one, could block forever.
+	if info, err := os.Stat(path); err == nil && !info.Mode().IsRegular() {
+		fmt.Fprintf(os.Stderr, "Error reading .terraformignore, default exclusions will apply: %s is not a regular file \n", path)
+		return ignorefiles.DefaultRuleset
+	}
+
+	file, err := os.Open(path)
 	defer file.Close()
 
 	// If there's any kind of file error, punt and use the default ignore patterns
